@@ -336,3 +336,42 @@ func sqfsLastCase(c *hx.Ctx, id string, w *world) {
 	c.Impl(id, fmt.Sprintf("last=%d:%d", ev.Off-w.start, ev.Len))
 	c.Stat("sqfs-last-write-log")
 }
+
+// sigPresent: is the signature the reader of kind k looks for first present in the volume?
+func sigPresent(w *world, k string) bool {
+	at := func(off int64, want []byte) bool {
+		if w.start+off+int64(len(want)) > w.dev.Size() {
+			return false
+		}
+		return string(w.dev.Bytes(w.start+off, len(want))) == string(want)
+	}
+	switch k {
+	case "fat12":
+		return at(510, []byte{0x55, 0xAA}) && at(54, []byte("FAT12"))
+	case "fat16":
+		return at(510, []byte{0x55, 0xAA}) && at(54, []byte("FAT16"))
+	case "fat32":
+		return at(510, []byte{0x55, 0xAA}) && at(82, []byte("FAT32"))
+	case "squashfs":
+		return at(0, []byte("hsqs"))
+	case "ext4":
+		return at(1080, []byte{0x53, 0xEF})
+	case "iso9660":
+		return at(32769, []byte("CD001"))
+	}
+	return false
+}
+
+// surviveStat: which (old type, new type) pairs leave the OLD signature in place after the new Create - the
+// pairs for which only the probe order keeps GetFilesystem from answering the old type
+// (Props/C12 ext4_signature_survives_fat16 / _fat32, cex_order_ext4_before_fat16, cex_sqfs_over_iso).
+func surviveStat(c *hx.Ctx, w *world, g cfg, staleWasThere bool) {
+	if !staleWasThere || g.stale == g.kind {
+		return
+	}
+	if sigPresent(w, g.stale) {
+		c.Stat("survive." + g.stale + "-under-" + g.kind)
+	} else {
+		c.Stat("overwritten." + g.stale + "-under-" + g.kind)
+	}
+}
